@@ -138,8 +138,8 @@ def jobs(tier, seed):
     for n in (3, 4, 5, 6) if tier == "thorough" else (3, 4, 5):
         shapes = loop_body_shapes(n)
         for idx in range(len(shapes)):
-            if n == 6 and idx % 16 != seed % 16:
-                continue  # 1960 bodies: VERIF_SEED selects which sixteenth is explored (each exhaustively)
+            if n == 6 and idx % 32 != seed % 32:
+                continue  # 1960 bodies: VERIF_SEED selects which thirty-second is explored (each exhaustively)
             for order in ("fwd", "rev") if n < 6 else ("fwd",):
                 for t, m in ((1, None), (2, 1)) if ((tier == "thorough" and n < 6) or n < 5) else ((1, None),):
                     limit = DEFAULT_MAX if m is None else m
